@@ -28,8 +28,24 @@ pub trait DataSource: fmt::Debug + Sync + Send {
     fn data_sections<'a>(&'a self) -> Vec<&'a dyn Data<'a>>;
     fn full_type(&self) -> Type;
 
-    fn decode<'a>(&'a self) -> BoxedData<'a> {
-        decode(&self.codec(), &self.data_sections())
+    fn decode<'a>(&'a self, arena: &'a DecodeArena) -> BoxedData<'a> {
+        decode(&self.codec(), &self.data_sections(), arena)
+    }
+}
+
+/// Owns byte buffers (decompressed or re-encoded string data) that a decoded string column borrows from.
+#[derive(Default)]
+pub struct DecodeArena {
+    buffers: std::cell::RefCell<Vec<Box<[u8]>>>,
+}
+
+impl DecodeArena {
+    fn alloc(&self, data: Vec<u8>) -> &[u8] {
+        let data = data.into_boxed_slice();
+        let ptr: *const [u8] = &*data;
+        self.buffers.borrow_mut().push(data);
+        // The boxed slice is neither moved nor dropped before the arena itself is dropped.
+        unsafe { &*ptr }
     }
 }
 
@@ -581,8 +597,14 @@ impl From<Vec<OrderedFloat<f64>>> for DataSection {
     }
 }
 
-fn decode<'a>(codec: &Codec, sections: &[&'a dyn Data<'a>]) -> BoxedData<'a> {
+fn decode<'a>(
+    codec: &Codec,
+    sections: &[&'a dyn Data<'a>],
+    arena: &'a DecodeArena,
+) -> BoxedData<'a> {
     let mut section_stack: Vec<BoxedData<'a>> = vec![sections[0].slice_box(0, sections[0].len())];
+    // Bytes of the first section after LZ4/Pco decompression (string data borrows from these).
+    let mut first_section_bytes: Option<&'a [u8]> = None;
     for codec_op in codec.ops() {
         let arg0 = section_stack.first().unwrap();
         let decoded = match codec_op {
@@ -746,7 +768,24 @@ fn decode<'a>(codec: &Codec, sections: &[&'a dyn Data<'a>]) -> BoxedData<'a> {
                 EncodingType::U8 => {
                     let mut decoded = vec![0; *count];
                     lz4::decode::<u8>(&mut lz4::decoder(arg0.cast_ref_u8()), &mut decoded);
+                    let decoded = arena.alloc(decoded);
+                    first_section_bytes = Some(decoded);
                     Box::new(decoded) as BoxedData
+                }
+                EncodingType::U16 => {
+                    let mut decoded = vec![0; *count];
+                    lz4::decode::<u16>(&mut lz4::decoder(arg0.cast_ref_u8()), &mut decoded);
+                    Box::new(decoded)
+                }
+                EncodingType::U32 => {
+                    let mut decoded = vec![0; *count];
+                    lz4::decode::<u32>(&mut lz4::decoder(arg0.cast_ref_u8()), &mut decoded);
+                    Box::new(decoded)
+                }
+                EncodingType::U64 => {
+                    let mut decoded = vec![0; *count];
+                    lz4::decode::<u64>(&mut lz4::decoder(arg0.cast_ref_u8()), &mut decoded);
+                    Box::new(decoded)
                 }
                 EncodingType::I64 => {
                     let mut decoded = vec![0; *count];
@@ -765,7 +804,10 @@ fn decode<'a>(codec: &Codec, sections: &[&'a dyn Data<'a>]) -> BoxedData<'a> {
                 match encoding_type {
                     EncodingType::U8 => {
                         let decoded = simple_decompress::<u32>(encoded_data).unwrap();
-                        Box::new(decoded.iter().map(|&x| x as u8).collect::<Vec<_>>()) as BoxedData
+                        let decoded =
+                            arena.alloc(decoded.iter().map(|&x| x as u8).collect::<Vec<_>>());
+                        first_section_bytes = Some(decoded);
+                        Box::new(decoded) as BoxedData
                     }
                     EncodingType::U16 => {
                         let decoded = simple_decompress::<u32>(encoded_data).unwrap();
@@ -805,14 +847,39 @@ fn decode<'a>(codec: &Codec, sections: &[&'a dyn Data<'a>]) -> BoxedData<'a> {
             }
             CodecOp::UnpackStrings => {
                 let mut output = Vec::new();
-                let packed: &'a [u8] = sections[0].cast_ref_u8();
+                let packed: &'a [u8] =
+                    first_section_bytes.unwrap_or_else(|| sections[0].cast_ref_u8());
                 let iterator = unsafe { StringPackerIterator::from_slice(packed) };
                 for str in iterator {
                     output.push(str);
                 }
                 Box::new(output) as BoxedData
             }
-            CodecOp::UnhexpackStrings(_, _) => todo!(),
+            CodecOp::UnhexpackStrings(uppercase, total_bytes) => {
+                let packed: &'a [u8] =
+                    first_section_bytes.unwrap_or_else(|| sections[0].cast_ref_u8());
+                let mut stringstore = Vec::with_capacity(*total_bytes);
+                let mut lengths = Vec::new();
+                for bytes in crate::stringpack::PackedBytesIterator::from_slice(packed) {
+                    let string = if *uppercase {
+                        hex::encode_upper(bytes)
+                    } else {
+                        hex::encode(bytes)
+                    };
+                    lengths.push(string.len());
+                    stringstore.extend_from_slice(string.as_bytes());
+                }
+                let stringstore: &'a [u8] = arena.alloc(stringstore);
+                let mut output = Vec::with_capacity(lengths.len());
+                let mut offset = 0;
+                for len in lengths {
+                    output.push(unsafe {
+                        str::from_utf8_unchecked(&stringstore[offset..offset + len])
+                    });
+                    offset += len;
+                }
+                Box::new(output) as BoxedData
+            }
             CodecOp::Unknown => todo!(),
         };
         section_stack.pop();
